@@ -110,6 +110,17 @@ func TestC04Proc(t *testing.T) {
 				exp = append(exp, beh{name: "started-only " + how, marker: true, maxKillMs: 30000})
 			}
 		}
+		// the first Client() call failed for a reason that is gone when Kill comes (a blocking dial with a 1.5 s timeout against
+		// a plugin that was stopped for a moment): the healthy plugin is still asked to shut down and finishes its clean-up
+		if proto == "grpc" {
+			cells = append(cells, Cell{
+				Name:   "grpc launch=cmd plugin=exits-after-300ms, first Client() timed out while the plugin was stopped for a moment",
+				Plugin: PluginConf{CookieKey: cookieKey, CookieValue: cookieVal, Legacy: 1, LegacyProto: proto, GRPCServer: true, TLS: "none", ExitMarker: "auto", ExitDelayMs: 300},
+				Host:   HostConf{Allowed: []string{"netrpc", "grpc"}, TLS: "none", Launch: "cmd", Legacy: 1, SkipHostEnv: true, GRPCBlock: true, GRPCDialTimeoutMs: 1500},
+				Ops:    []string{"new", "start", "sigstop", "client!err", "sigcont", "sleep:300", "kill", "proc?"},
+			})
+			exp = append(exp, beh{name: "transient-client-error", marker: true, maxKillMs: 30000})
+		}
 		// the application built the command with exec.CommandContext and a polite Cancel hook (SIGTERM): a plugin that does
 		// not exit on its own is still force-killed
 		for _, b0 := range []beh{{"frozen", 0, []string{"sigstop"}, false, 60000}, {"exits-at-once", 0, nil, true, 30000}} {
